@@ -195,6 +195,7 @@ func c02Gen(c *Ctx) {
 	c02ArgErrors(c)
 	c02InputTable(c)
 	c02EnumClosed(c)
+	c02ListNullVsEmpty(c)
 }
 
 // errorFlow classifies what happens to the error result of call in fn:
@@ -724,5 +725,60 @@ func c02EnumClosed(c *Ctx) {
 	}
 	if total < 3 {
 		c.R.Fail("enum-closed examined only %d generated enums", total)
+	}
+}
+
+// c02ListNullVsEmpty: an empty list is not null.  The generated list unmarshalers turn the coerced input into a Go slice; the
+// resolver must be able to tell `[]` (a non-nil empty slice) from null (a nil slice), also when the empty list is a literal
+// — gqlparser hands an empty list literal over as a nil-valued []any, which CoerceList passes through.  In every generated
+// function that calls graphql.CoerceList: a successful return (nil error) yields a nil slice only on an edge where the raw
+// input parameter itself is nil; any other successful return yields a made slice.
+func c02ListNullVsEmpty(c *Ctx) {
+	c.R.Rule("list-null-vs-empty", "in every generated list unmarshaler (a function calling graphql.CoerceList) a successful return gives back a nil slice only on the edge `input == nil`, never because the coerced list happens to be nil/empty", 20)
+	n := 0
+	for _, g := range c.Gen {
+		for _, fn := range c.genFuncs(g) {
+			if fn.Parent() != nil {
+				continue
+			}
+			calls := an.CallsIn(fn, func(_ ssa.CallInstruction, ci an.CalleeInfo) bool { return ci.FullName() == pkgGraphql+".CoerceList" })
+			if len(calls) == 0 || fn.Signature.Results().Len() != 2 {
+				continue
+			}
+			if _, isSlice := fn.Signature.Results().At(0).Type().Underlying().(*types.Slice); !isSlice {
+				continue
+			}
+			input := calls[0].Common().Args[0]
+			n++
+			bad := ""
+			for _, r := range an.Returns(fn) {
+				if fn.Recover != nil && r.Block() == fn.Recover {
+					continue
+				}
+				if len(r.Results) != 2 || !an.IsNilConst(an.ReturnedValue(r, 1)) {
+					continue
+				}
+				for _, ve := range valueEdges(an.ReturnedValue(r, 0), r.Block()) {
+					if !an.IsNilConst(ve.val) {
+						continue
+					}
+					fs := append(factsOn(ve), an.Facts(r)...)
+					okNil := false
+					for _, f := range fs {
+						if empty, k := an.EmptinessFact(f, func(x ssa.Value) bool { return x == input || an.SameVar(x, input) }); k && empty {
+							// the fact must be a nil test of the input itself, not a length test of something derived from it
+							okNil = true
+						}
+					}
+					if !okNil {
+						bad = "a nil list is returned with a nil error at " + c.ipos(r) + " on a path where the input is not known to be null: an empty list (`[]` literal, `= []` default) reaches the resolver as null"
+					}
+				}
+			}
+			c.R.Check(bad == "", "gen:"+g.Name+"/"+fn.Name(), c.pos(fn.Pos()), "nil result only for a nil input", bad)
+		}
+	}
+	if n < 20 {
+		c.R.Fail("list-null-vs-empty examined only %d list unmarshalers", n)
 	}
 }
